@@ -56,6 +56,8 @@ struct MConn {
     port: u32,
     established: bool,
     peer_shutdown: bool,
+    /// the peer closed with a RST (answering a reset with a reset once drained is optional)
+    peer_reset: bool,
     buffered: VecDeque<u8>,
     /// bytes the application has read (fwd_cnt)
     read_total: u32,
@@ -182,7 +184,7 @@ impl Run<'_> {
                             return Err(format!("{}: returned {:?}", what, r));
                         }
                         want_tx.push((1, peer, port, vec![], 0, 0));
-                        conns.push(MConn { peer, port, established: false, peer_shutdown: false, buffered: VecDeque::new(), read_total: 0, peer_sent: 0, sent: 0, id: next_id });
+                        conns.push(MConn { peer, port, established: false, peer_shutdown: false, peer_reset: false, buffered: VecDeque::new(), read_total: 0, peer_sent: 0, sent: 0, id: next_id });
                         next_id = next_id.wrapping_add(1);
                     }
                     sig.add(1);
@@ -243,7 +245,13 @@ impl Run<'_> {
                                 other => return Err(format!("{}: returned {:?} ({} bytes expected); data delivered to the wrong connection or corrupted", what, other, want.len())),
                             }
                             if m.peer_shutdown && m.buffered.is_empty() {
-                                want_tx.push((3, peer, port, vec![], 0, 0));
+                                // "closed with a reset once drained" is stated for a peer
+                                // shutdown; after a peer RST a reset in reply is optional
+                                settle(&dev);
+                                let txn: Vec<Pkt> = dev.with(|d| d.h.tx[tx0..].to_vec());
+                                if !m.peer_reset || txn.iter().any(|t| t.op == 3) {
+                                    want_tx.push((3, peer, port, vec![], 0, 0));
+                                }
                                 conns.remove(k);
                             }
                         }
@@ -400,7 +408,7 @@ impl Run<'_> {
                                         other => return Err(format!("{}: request to listening port {} returned {:?}", what, pkt.dst_port, other)),
                                     }
                                     want_tx.push((2, peer_a, pkt.dst_port, vec![], 0, 0));
-                                    conns.push(MConn { peer: peer_a, port: pkt.dst_port, established: true, peer_shutdown: false, buffered: VecDeque::new(), read_total: 0, peer_sent: 0, sent: 0, id: next_id });
+                                    conns.push(MConn { peer: peer_a, port: pkt.dst_port, established: true, peer_shutdown: false, peer_reset: false, buffered: VecDeque::new(), read_total: 0, peer_sent: 0, sent: 0, id: next_id });
                                     next_id = next_id.wrapping_add(1);
                                 } else {
                                     if r != Ok(None) {
@@ -471,6 +479,7 @@ impl Run<'_> {
                                     conns.remove(k);
                                 } else {
                                     conns[k].peer_shutdown = true;
+                                    conns[k].peer_reset |= pkt.op == 3;
                                 }
                             }
                             (5, Some(k)) => {
